@@ -268,7 +268,7 @@ var (
 
 func c17sEnumerate(thorough bool, visit func(grid, proto, streamType string, raw *conformancev1.RawHTTPResponse) bool) {
 	// grid E: status/header/trailer combinations x medium body set
-	envs := c17rEnvs(false, 0)
+	envs := c17rEnvs(false, 1)
 	if thorough {
 		envs = c17rEnvs(true, 0)
 	}
